@@ -16,23 +16,23 @@ ASSUME_A = [
 
 # property -> (profile, level, {tier: (models, runs per model)}, rule)
 WORLD_A = {
-    'C01': ('C01', 'exploration', {'quick': (32, 120), 'thorough': (480, 800)},
+    'C01': ('C01', 'exploration', {'quick': (48, 100), 'thorough': (480, 800)},
             'one sweep run (every reachable (port,event) once per direction) plus seeded random workloads per generated '
             '(model, configuration); distinct = distinct SHA-256 of the whole recorded history; non-trivial = at least one '
             'handler executed on another task than its caller (the event crossed the dispatcher)'),
-    'C02': ('C02', 'exploration', {'quick': (32, 120), 'thorough': (480, 800)},
+    'C02': ('C02', 'exploration', {'quick': (48, 100), 'thorough': (480, 800)},
             'same generated models and workloads as C01, judged by the runtime-semantics oracle; distinct = distinct '
             'history digest; non-trivial = at least one event crossed the dispatcher'),
-    'C04': ('C04', 'exploration', {'quick': (20, 300), 'thorough': (240, 3000)},
+    'C04': ('C04', 'exploration', {'quick': (24, 300), 'thorough': (240, 3000)},
             'per generated multi-client (model, configuration): sequential histories of 5-40 claim/release/other/peer ops issued by '
             'one driver task for 1-4 registered clients, alternating fault-free histories and histories with rogue releases and '
             'denied claims; distinct = distinct history digest; non-trivial = at least one out-event was delivered to a client port'),
-    'C11': ('C11', 'exploration', {'quick': (8, 600), 'thorough': (64, 20000)},
+    'C11': ('C11', 'exploration', {'quick': (10, 600), 'thorough': (64, 20000)},
             'per generated multi-client all-MTS (model, configuration): 2-3 client threads performing claim/use/release cycles '
             'with retry, 1-2 peer threads raising requires out-events, under seeded schedules (uniform, sticky, PCT, round-robin, '
             'dispatcher stalls) in a ThreadSanitizer build whose only visible synchronisation is the program\'s own; '
             'distinct = distinct history digest; non-trivial = at least two claim windows opened in the run'),
-    'C09': ('C09', 'fault_enumeration', {'quick': (32, 30), 'thorough': (480, 200)},
+    'C09': ('C09', 'fault_enumeration', {'quick': (48, 30), 'thorough': (480, 200)},
             'per generated (model, configuration): exhaustive product {dispatcher present?} x {runtime present?} x {0,1,2 other '
             'services} of the user locator (12 construction worlds), then seeded workloads in the world where construction must '
             'succeed with the identity of the executing dispatcher checked on every closure; distinct = distinct history digest; '
